@@ -181,8 +181,60 @@ Lemma matrix_spec_l : forall f A rows us c,
   g_val (b_matrix f A rows) us c = rdot 0 (map (A c) (seq 0 (nc f))) (fun k => g_val f us k).
 Proof. intros. unfold g_val, b_matrix, sdim. simpl. apply tp_eval_rdot. Qed.
 
-Lemma getitem_spec_l : forall f I us c, g_val (b_getitem f I) us c = g_val f us I.
+Lemma getitem_spec_l : forall f cs us c, g_val (b_select f cs) us c = g_val f us (nth c cs 0%nat).
 Proof. intros. reflexivity. Qed.
+
+Lemma nurbs_getitem_spec_l : forall f cs us c, (c < length cs)%nat ->
+  n_val (n_select f cs) us c = n_val f us (nth c cs 0%nat).
+Proof.
+  intros f cs us c Hc. unfold n_val, g_val, n_select, wcomp, sdim. cbn [kvs co nc].
+  replace (S (length cs) - 1)%nat with (length cs) by lia.
+  assert (E1 : (c <? length cs)%nat = true) by (apply Nat.ltb_lt; exact Hc).
+  rewrite E1, Nat.ltb_irrefl. reflexivity.
+Qed.
+
+(* Python index semantics: a negative int counts from the end; the full slice is the identity
+   selection, [::-1] the reversed one *)
+Lemma py_wrap_spec_l : forall n i,
+  (forall k, (k < n)%nat -> py_wrap n (Z.of_nat k) = Some k)
+  /\ ((1 <= i <= n)%nat -> py_wrap n (- Z.of_nat i) = Some (n - i)%nat)
+  /\ py_wrap n (Z.of_nat n + Z.of_nat i) = None /\ py_wrap n (- Z.of_nat n - 1 - Z.of_nat i) = None.
+Proof.
+  intros n i. unfold py_wrap. repeat split.
+  - intros k Hk.
+    destruct (Z.leb_spec 0 (Z.of_nat k)); [|lia]. destruct (Z.ltb_spec (Z.of_nat k) (Z.of_nat n)); [|lia].
+    simpl. rewrite Nat2Z.id. reflexivity.
+  - intros Hi.
+    destruct (Z.leb_spec 0 (- Z.of_nat i)); [lia|]. simpl.
+    destruct (Z.leb_spec (- Z.of_nat n) (- Z.of_nat i)); [|lia].
+    destruct (Z.ltb_spec (- Z.of_nat i) 0); [|lia]. simpl. f_equal. lia.
+  - destruct (Z.ltb_spec (Z.of_nat n + Z.of_nat i) (Z.of_nat n)); [lia|]. rewrite andb_false_r.
+    destruct (Z.ltb_spec (Z.of_nat n + Z.of_nat i) 0); [lia|]. rewrite andb_false_r. reflexivity.
+  - destruct (Z.leb_spec 0 (- Z.of_nat n - 1 - Z.of_nat i)); [lia|]. simpl.
+    destruct (Z.leb_spec (- Z.of_nat n) (- Z.of_nat n - 1 - Z.of_nat i)); [lia|]. reflexivity.
+Qed.
+
+Lemma full_slice_l : forall n, py_slice n None None 1 = seq 0 n.
+Proof.
+  intros n. unfold py_slice. simpl Z.eqb. simpl Z.ltb. cbv iota.
+  replace ((Z.of_nat n - 0 + 1 - 1) / 1)%Z with (Z.of_nat n) by (rewrite Z.div_1_r; lia).
+  rewrite Nat2Z.id. rewrite <- (map_id (seq 0 n)) at 2. apply map_ext. intros k. lia.
+Qed.
+
+Lemma rev_seq0' : forall n, rev (seq 0 n) = map (fun a => (n - 1 - a)%nat) (seq 0 n).
+Proof.
+  induction n; [reflexivity|].
+  rewrite seq_S at 1. rewrite rev_app_distr. simpl rev. simpl app. rewrite IHn.
+  cbn [seq map]. f_equal; [lia|].
+  rewrite <- seq_shift, map_map. apply map_ext. intros. lia.
+Qed.
+
+Lemma reverse_slice_l : forall n, py_slice n None None (-1) = rev (seq 0 n).
+Proof.
+  intros n. unfold py_slice. simpl Z.eqb. simpl Z.ltb. cbv iota.
+  replace ((Z.of_nat n - 1 - -1 - -1 - 1) / - -1)%Z with (Z.of_nat n) by (simpl Z.opp; rewrite Z.div_1_r; lia).
+  rewrite Nat2Z.id, rev_seq0'. apply map_ext_in. intros k Hk. apply in_seq in Hk. lia.
+Qed.
 
 Lemma as_nurbs_spec_l : forall f us c, (c < nc f)%nat -> pou_at (kvs f) us ->
   n_val (b_as_nurbs f) us c = g_val f us c.
